@@ -13,6 +13,9 @@ CHECKS = {
     "C04": dict(cat="model_checking", ref="§4 C04", tech="TLA+ xor128 reference evaluated by TLC on recorded traces; complete basis of the 128-bit state",
                 text="All 128 unit-bit seeds plus structured and random seeds of XorShiftRng are stepped on the real type and every output and state image is checked by TLC against Marsaglia's xor128 written in TLA+; complete for the linear map by the basis argument.",
                 note=TB),
+    "C05": dict(cat="model_checking", ref="§4 C05", tech="TLC exhaustive model checking of ApiImpl (BlockRng/BlockRng64/via-next) with refinement to Stream (C05 as a TLA+ spec); transition cover generated from TLC's state graph replayed on all 20 generator types; trace validation against Stream with a native-call twin",
+                text="The API machine is explored exhaustively for the real buffer lengths (16, 256) and every transition is checked to refine the one-forward-stream specification; every selected edge of that graph plus seeded random interleavings is executed on the real types and each returned byte is validated by TLC against the specification instantiated with the words of an identically seeded twin.",
+                note=TB + "; fill lengths for the 256-word buffers are explored in classes around 0, 1 and 2 blocks, not all lengths; seeds are a corpus"),
 }
 
 NOT_YET = {}
